@@ -28,6 +28,7 @@ RULE += (' Also: a callable that fails at its k-th call (incl. StopIteration / S
 RULE += (' Also: a source failing at its k-th use (AttributeError, TypeError, KeyError, ...) for every flavour of source; asynctools.any_iter; iterables that are not iterators.')
 RULE += (' Also: scoped_iter blocks (closing tools on the handle, then the rest) over every flavour of source.')
 RULE += (' Also: a context decorator around every flavour of awaitable-returning callable, incl. one doing its work when called.')
+RULE += (" Also: managers' enter values that are awaitable payload (ExitStack scenario).")
 ASSUMPTIONS = ["baseline (list + def) behaviour itself is judged by C01/C02, not here"]
 EXHAUSTIVE = {"quick": False, "thorough": False}
 N_SPECS = {"quick": 6000, "thorough": 200000}
@@ -206,6 +207,7 @@ def run_tool(case, stats):
 def run_exitstack(case, stats):
     import asyncstdlib as A
     from ..probes import FnState, make_fn
+    from ..tools import AwaitablePayload
 
     entries = case["entries"]
 
@@ -217,7 +219,8 @@ def run_exitstack(case, stats):
             CTX.ev("cm-enter", i)
             if beh.startswith("enter_raises"):
                 raise EnterFailed(i)
-            return ("value", i)
+            # (what a manager's enter gives may itself happen to be awaitable - a handle, a future: the stack hands it on)
+            return AwaitablePayload(("cm", i))
 
         def leave(et, ev, tb):
             CTX.ev("cm-exit", i, et.__name__ if et else None)
